@@ -12,7 +12,7 @@ import os
 import random
 import sys
 
-from harness import common, symbolic, tlc
+from harness import common, graphs, symbolic, tlc
 
 CASTS_QUICK = [('CastA', 4), ('CastB', 4), ('CastC', 3)]
 CASTS_THOROUGH = [('CastA', 6), ('CastB', 6), ('CastC', 5), ('CastD', 5), ('CastE', 5), ('CastG', 5)]
@@ -28,23 +28,7 @@ def _cfg(cast, depth, trace, path):
 
 
 # ---------------------------------------------------------------------------------------------- real objects
-def _quiet_del(unraisable):
-    # Subscription.__del__ of nodes whose registry entry was reset prints an AttributeError; irrelevant noise
-    if 'Subscription.__del__' in repr(unraisable.object):
-        return
-    sys.__unraisablehook__(unraisable)
-
-
-sys.unraisablehook = _quiet_del
-
-
-def reset_ports():
-    """Hygiene only: the process-global subscription registry keeps every node ever created (all nodes of one shape
-    share a hash), which makes long replay loops quadratic. All nodes of earlier scenarios are garbage by now."""
-    from forml import flow
-    reg = getattr(flow.Subscription, '_PORTS', None)
-    if reg is not None:
-        reg.clear()
+reset_ports = graphs.reset_ports
 
 
 def build(cast):
